@@ -234,7 +234,7 @@ PROPS = {
                  'cargo feature `persist` switched on for these units only; rules R33 (iter().map().collect() as an index loop) and R34 (`if C { continue; } REST` as if/else)'],
     ),
     'C20': dict(
-        vx_units=['asyncsrv', 'asyncdevw', 'asyncarcfs', 'asyncvfs', 'server', 'arcfs', 'vfs', 'writerenum', 'virtiofsw_async'], kx=[],
+        vx_units=['asyncsrv', 'asyncdevw', 'asyncarcfs', 'asyncvfs', 'server', 'arcfs', 'vfs', 'writerenum', 'virtiofsw_async', 'asyncpt'], kx=[],
         # the async entry points of VirtioFsWriter are verified in unit virtiofsw_async against the clauses of their sync twins (same cursor movement, same marking, same refusals)
         alias=[r'^C04\.async_', r'^C17\.async_', r'^virtiofsw_async\.'],
         design_ref='DESIGN.md A.4',
@@ -243,7 +243,7 @@ PROPS = {
             'that the operation IS invoked (capabilities forbid calls, they cannot demand one); that a reply is sent is covered as on the sync side, on results ([C20.<op>.replied] / [C20.<op>.answered], same clauses as C01)',
             'interleavings with other tasks, cancellation at an await point, Send and lifetime obligations of the futures (rule R18 drops `async` and `.await`)',
             'bytes moved through AsyncZcWriter / AsyncZcReader',
-            'non-forwarding bodies of the Arc<FS> AsyncFileSystem impl are undecided (exit 2); async results cannot carry the passthrough backing id (Vfs async_open / async_create are specified as the sync result minus that component); AsyncFileSystem impls of PassthroughFs / OverlayFs',
+            'non-forwarding bodies of the Arc<FS> AsyncFileSystem impl are undecided (exit 2); async results cannot carry the passthrough backing id (Vfs async_open / async_create are specified as the sync result minus that component); the AsyncFileSystem impl of OverlayFs (there is none in this tree); PassthroughFs's is covered (unit asyncpt: every async operation is its sync twin with the same arguments)',
             'logging and MetricsHook calls',
         ],
         trusted=['T3/T4 as C01', 'T4a Writer::async_write* / async_commit have the contracts of their sync twins (async_commit checked on the real text in unit asyncdevw; nix pwrite is a device write under the same capability)',
